@@ -17,6 +17,8 @@ type Loop struct {
 	labelStart    string
 	labelBreak    string
 	labelContinue string
+	// Number of `try` blocks that enclosed the loop when it was entered
+	tryDepth int
 }
 
 type Function struct {
@@ -40,6 +42,9 @@ type Compiler struct {
 	currScope       *map[string]string
 	currModule      string
 	lambdaCount     uint
+	// Number of `try` blocks of the current function that enclose the code being compiled.
+	// A `break`, `continue` or `return` that leaves them must uninstall their handlers.
+	tryDepth int
 	// Program source: required for invocations of the evaluator.
 	analyzedSource   map[string]ast.AnalyzedProgram
 	entryPointModule string
